@@ -411,10 +411,18 @@ def verdict(case, rows, a, e=None, idx=None):
         m, mexc = R.model_getitem(rows, e), None
     except IndexError as x:
         m, mexc = None, x
+    parts = [x for x in (idx if isinstance(idx, tuple) else (idx,)) if isinstance(x, np.ndarray)]
+    before = [x.copy() for x in parts]
     try:
         g, gexc = a[idx], None
     except Exception as x:      # noqa - any exception counts as "raises"
         g, gexc = None, x
+    # a read is a read: the caller's index arrays are its arguments and must come back untouched (numpy never rewrites
+    # them; a library that resolves negative entries in place makes the caller's NEXT read, on another row or array,
+    # address other elements)
+    for x, b in zip(parts, before):
+        require(np.array_equal(x, b), "%s: the read modified the caller's index array" % expr, before=b.tolist(),
+                after=x.tolist(), **ctx)
 
     if mexc is not None:
         require(gexc is not None,
@@ -441,9 +449,20 @@ def verdict(case, rows, a, e=None, idx=None):
             expr, type(gexc).__name__, str(gexc)[:200], _plain_model(m),
             ", ".join("%s=%r" % kv for kv in ctx.items()))) from gexc
 
+    # the same index OBJECTS are used for a second read: a read that rewrites the caller's index arrays (e.g. resolves
+    # negative entries in place) makes the next read with them return other elements
+    try:
+        g2 = a[idx]
+    except Exception as x:      # noqa
+        raise Violation("%s: second read with the same index objects raised %s: %s (first read succeeded)" % (
+            expr, type(x).__name__, str(x)[:200])) from x
+
     if m.kind == "rows":
         bad = R.diff_against_rows(g, m.value)
         require(not bad, "%s: returned ragged array differs from list-of-rows result" % expr,
+                diff=bad, want=_plain_model(m), **ctx)
+        bad = R.diff_against_rows(g2, m.value)
+        require(not bad, "%s: SECOND read with the same index objects differs from list-of-rows result" % expr,
                 diff=bad, want=_plain_model(m), **ctx)
         return "equal"
 
@@ -454,6 +473,11 @@ def verdict(case, rows, a, e=None, idx=None):
         gv = gv[0]        # a[i, j] legitimately comes back as a 1-element array
     require(R.values_equal(gv, w), "%s: returned values differ from list-of-rows result" % expr,
             got=_plain(gv), got_shape=gv.shape, want=w.tolist(), want_shape=w.shape, **ctx)
+    gv2 = np.asarray(g2)
+    if m.kind == "elem" and gv2.shape == (1,) + w.shape:
+        gv2 = gv2[0]
+    require(R.values_equal(gv2, w), "%s: SECOND read with the same index objects differs from list-of-rows result" % expr,
+            got=_plain(gv2), want=w.tolist(), **ctx)
     return "equal"
 
 
